@@ -254,6 +254,16 @@ func (m *MsgB) Ext(name string, num int32, t FT, l FL, typeName, extendee string
 	return m
 }
 
+// Default sets the proto2 default value (descriptor text form) of the most recently added field or nested extension of m.
+func (m *MsgB) Default(v string, ext bool) *MsgB {
+	if ext {
+		m.m.Extension[len(m.m.Extension)-1].DefaultValue = proto.String(v)
+	} else {
+		m.m.Field[len(m.m.Field)-1].DefaultValue = proto.String(v)
+	}
+	return m
+}
+
 // Ext declares a file-level extension.
 func (b *FileB) Ext(name string, num int32, t FT, l FL, typeName, extendee string) *FileB {
 	f := &descriptorpb.FieldDescriptorProto{Name: proto.String(name), Number: proto.Int32(num), Type: t.Enum(), Label: l.Enum(), Extendee: proto.String(extendee)}
